@@ -26,6 +26,8 @@ def run(rep, tier):
     info = gen_pauliref.generate()
     rep.notes['translator'] = {'routines_translated': info['routines'], 'refused': info['refused'],
                                'dispatch_entries': {k: [len(v[0]), len(v[1]), len(v[2])] for k, v in info['tables'].items()}}
+    from vlib import setup
+    setup.regenerate_all(svh)
     pr = core.prove(['Properties_C12.v'])
     rep.set_proof(pr)
     rep.trusted += ['Coq 8.16.1 kernel incl. vm_compute', 'vlib/cxx.py + vlib/gen_pauliref.py (C++ subset translator)',
